@@ -7,6 +7,9 @@
 //!   3 positional      items inserted in a random order at the position that keeps program order
 //!   4 dangling        every nested sequence is created dangling, filled completely, attached afterwards
 //!   5 closures        `block` / `loop_` / `if_else` with nested closures and the named instruction methods
+//!   6 preallocated    every sequence of the function is created dangling up front in a random order (so arena
+//!                     ids say nothing about nesting), then filled and attached; locals are allocated in a
+//!                     random order too (parameters are not the lowest local ids)
 
 use crate::util::guarded;
 use std::collections::HashMap;
@@ -193,6 +196,38 @@ fn build_seq(fb: &mut FunctionBuilder, seq: InstrSeqId, nodes: &[TNode], env: &E
     }
 }
 
+/// Order 6: the sequences already exist (created in an order unrelated to nesting); fill and attach.
+fn build_pre(fb: &mut FunctionBuilder, seq: InstrSeqId, nodes: &[TNode], env: &Env, labels: &mut HashMap<usize, InstrSeqId>, pre: &HashMap<usize, (InstrSeqId, Option<InstrSeqId>)>) {
+    for n in nodes {
+        match n {
+            TNode::Op(op) => {
+                let i = to_instr(op, env, labels);
+                fb.instr_seq(seq).instr(i);
+            }
+            TNode::Block { id, body, .. } => {
+                let child = pre[id].0;
+                labels.insert(*id, child);
+                fb.instr_seq(seq).instr(Block { seq: child });
+                build_pre(fb, child, body, env, labels, pre);
+            }
+            TNode::Loop { id, body, .. } => {
+                let child = pre[id].0;
+                labels.insert(*id, child);
+                fb.instr_seq(seq).instr(Loop { seq: child });
+                build_pre(fb, child, body, env, labels, pre);
+            }
+            TNode::If { id, then_, else_, .. } => {
+                let (c, a) = (pre[id].0, pre[id].1.unwrap());
+                fb.instr_seq(seq).instr(IfElse { consequent: c, alternative: a });
+                labels.insert(*id, c);
+                build_pre(fb, c, then_, env, labels, pre);
+                labels.insert(*id, a);
+                build_pre(fb, a, else_, env, labels, pre);
+            }
+        }
+    }
+}
+
 /// Order 5: nested closures and the named builder methods.
 fn build_closures(b: &mut InstrSeqBuilder, nodes: &[TNode], env: &Env, labels: &mut HashMap<usize, InstrSeqId>) {
     for n in nodes {
@@ -283,7 +318,19 @@ fn build_module(t: &TFunc, order: u32, seed: u64) -> Vec<u8> {
         fb.func_body().local_get(p);
         fb.finish(vec![p], &mut m.funcs)
     };
-    let locals: Vec<LocalId> = t.locals.iter().map(|ty| m.locals.add(vt(*ty))).collect();
+    let mut rng = Rng::derive(seed, &[order as u64]);
+    let locals: Vec<LocalId> = if order == 6 || order == 3 {
+        // allocation order is not signature order
+        let mut idx: Vec<usize> = (0..t.locals.len()).collect();
+        rng.shuffle(&mut idx);
+        let mut ids: Vec<Option<LocalId>> = vec![None; t.locals.len()];
+        for i in idx {
+            ids[i] = Some(m.locals.add(vt(t.locals[i])));
+        }
+        ids.into_iter().map(|x| x.unwrap()).collect()
+    } else {
+        t.locals.iter().map(|ty| m.locals.add(vt(*ty))).collect()
+    };
     let params: Vec<ValType> = t.params.iter().map(|x| vt(*x)).collect();
     let results: Vec<ValType> = t.results.iter().map(|x| vt(*x)).collect();
     let mut seq_tys = HashMap::new();
@@ -293,8 +340,35 @@ fn build_module(t: &TFunc, order: u32, seed: u64) -> Vec<u8> {
     let mut labels: HashMap<usize, InstrSeqId> = HashMap::new();
     let body_id = fb.func_body_id();
     labels.insert(0, body_id);
-    let mut rng = Rng::derive(seed, &[order as u64]);
-    if order == 5 {
+    if order == 6 {
+        // create every sequence up front, in a random order of constructs
+        let mut constructs: Vec<(usize, bool)> = Vec::new();
+        fn collect(nodes: &[TNode], out: &mut Vec<(usize, bool)>) {
+            for n in nodes {
+                match n {
+                    TNode::Op(_) => {}
+                    TNode::Block { id, body, .. } | TNode::Loop { id, body, .. } => {
+                        out.push((*id, false));
+                        collect(body, out);
+                    }
+                    TNode::If { id, then_, else_, .. } => {
+                        out.push((*id, true));
+                        collect(then_, out);
+                        collect(else_, out);
+                    }
+                }
+            }
+        }
+        collect(&t.body, &mut constructs);
+        rng.shuffle(&mut constructs);
+        let mut pre: HashMap<usize, (InstrSeqId, Option<InstrSeqId>)> = HashMap::new();
+        for (id, is_if) in &constructs {
+            let a = fb.dangling_instr_seq(env.seq_tys[id]).id();
+            let b = if *is_if { Some(fb.dangling_instr_seq(env.seq_tys[id]).id()) } else { None };
+            pre.insert(*id, (a, b));
+        }
+        build_pre(&mut fb, body_id, &t.body, &env, &mut labels, &pre);
+    } else if order == 5 {
         let mut b = fb.func_body();
         build_closures(&mut b, &t.body, &env, &mut labels);
     } else {
@@ -317,7 +391,7 @@ pub fn run(input: &[u8], rec: &mut Rec) {
     };
     let t = tree::tree_for(seed, index);
     rec.push_n("nodes", tree::count_nodes(&t.body) as u64);
-    for order in 1..=5u32 {
+    for order in 1..=6u32 {
         match guarded(|| build_module(&t, order, seed ^ index)) {
             Ok(out) => rec.push_b(&format!("out.{}", order), &out),
             Err(p) => rec.push_s(&format!("panic.{}", order), &p),
